@@ -113,7 +113,7 @@ FILE_LINES = {
   "SigLines": [L("WEBVTT"), L("WEBVTT - a title")],
   "HeaderLines": [L("Kind: captions")],
   "NoteLines": [L("NOTE a comment"), L("more of it"), L("STYLE"), L("REGION")],
-  "IdLines": [L("7"), L("cue - id")],
+  "IdLines": [L("7"), L("cue - id"), L("NOTE-2")],
   "TimingLines": [LT((0, 0, 1, 280, 0, 0, 2, 0)), LT((1, 0, 0, 0, 100, 59, 59, 999), [V.st("line", "int", 0), V.st("align", "kw", 0, "left")])],
   "PayloadLines": [L("x"), L("<i>y</i> &amp;")],
 }
